@@ -20,7 +20,12 @@ Run-time part (this file):
             histories of the functions with tables / caches (pauli_basis, comp_basis_to_pauli, random_clifford, ...);
           - everything that needs a spectrum or a logarithm (entropies, trace distance, mixed
             fidelity, negativity, concurrence), special-case branches against the neighbouring
-            general formula, generator post-conditions per kind x seed (tolerances).
+            general formula, generator post-conditions per kind x seed (tolerances);
+          - family H (process_determinism): every seeded generator x option of random_ensembles.py called in three fresh interpreter
+            processes (PYTHONHASHSEED = 0, 1, 2; ONE process per hash seed) and in this process, outputs compared bit for bit --
+            the implementation side of C18/Props.v seed_int_deterministic (an int-seeded call reads the same stream in ANY world);
+            random_pauli == the seed's own integer stream mapped through the subset in the order the user gave (random_pauli_oracle);
+          - family F (measure_representation): ~19 measures on float64 / Fortran-order / strided / read-only inputs == complex128 C order.
 """
 STATIC = ["C18/Props", "C18/PropsMW"]
 import itertools
@@ -911,6 +916,245 @@ def seed_machine(run, rng):
                 run.find("model:seed_handling", f"history {hi}: state-machine model and bookkeeping disagree", {"history": hi}, concrete=False)
 
 
+
+# ----------------------------------------------------------------------------- H. process-level determinism of the seeded generators
+def _canon(x):
+    """bit-for-bit, JSON-able image of a generator output (arrays: dtype, shape, sha256 of the buffer; circuits: gate list)"""
+    import hashlib
+    from qibo import Circuit
+    if isinstance(x, Circuit):
+        gl = [[type(g).__name__, [int(q) for q in g.qubits], [_canon(np.asarray(p_)) for p_ in getattr(g, "parameters", ())]] for g in x.queue]
+        return {"circuit": [int(x.nqubits), bool(x.density_matrix), gl], "show": " ".join(f"{g[0]}{g[1]}" for g in gl[:12])}
+    if isinstance(x, (tuple, list)):
+        return {"seq": [_canon(y) for y in x]}
+    if isinstance(x, (bool, int, float, complex, np.number)):
+        return {"num": repr(complex(x))}
+    a = np.ascontiguousarray(np.asarray(x))
+    return {"array": [str(a.dtype), list(a.shape), hashlib.sha256(a.tobytes()).hexdigest()],
+            "show": str(np.round(a.ravel()[:4], 6).tolist())}
+
+
+def _call_spec(spec):
+    import qibo.quantum_info as qi
+    with warnings.catch_warnings():
+        warnings.simplefilter("ignore")
+        try:
+            return _canon(getattr(qi, spec["fn"])(**spec["kw"]))
+        except Exception as e:  # noqa: BLE001
+            return {"raises": f"{type(e).__name__}: {str(e)[:120]}"}
+
+
+def _worker_main():
+    """fresh interpreter: specs on stdin -> canonical outputs on stdout"""
+    import json
+    import sys
+    specs = json.load(sys.stdin)
+    np.seterr(all="ignore")
+    json.dump({"hashseed": __import__("os").environ.get("PYTHONHASHSEED"), "out": [_call_spec(sp) for sp in specs]}, sys.stdout)
+
+
+def determinism_specs(run, rng):
+    """every generator of random_ensembles.py that takes a seed x every option (each option value at least once, options crossed
+    pairwise where cheap); JSON-able keyword arguments"""
+    quick = run.tier == "quick"
+    S = []
+
+    def add(fn, **kw):
+        for seed in ([rng.randrange(10 ** 6)] if quick else [0, rng.randrange(10 ** 6), 2 ** 32 - 1]):
+            S.append({"fn": fn, "kw": {**kw, "seed": seed}})
+    add("uniform_sampling_U3", ngates=3)
+    for rank in (None, 2):
+        add("random_gaussian_matrix", dims=3, rank=rank, mean=0.5, stddev=2.0)
+    for semi in (False, True):
+        for nz in (False, True):
+            add("random_hermitian", dims=4, semidefinite=semi, normalize=nz)
+    for measure in (None, "haar"):
+        add("random_unitary", dims=4, measure=measure)
+    add("random_statevector", dims=8)
+    for metric in ("hilbert-schmidt", "ginibre", "bures"):
+        for rank, pure in ((None, False), (2, False), (None, True)):
+            add("random_density_matrix", dims=4, rank=rank, pure=pure, metric=metric)
+    for order in ("row", "column", "system"):
+        add("random_density_matrix", dims=2, basis="pauli", normalize=rng.random() < 0.5, order=order)
+    for rep in ("liouville", "choi", "kraus", "pauli", "chi", "pauli-ZXIY", "chi-IZYX", "stinespring"):
+        for measure in (None, "haar", "bcsz"):
+            order = rng.choice(["row", "column"])
+            kw = dict(dims=2, representation=rep, measure=measure, order=order)
+            if measure == "bcsz":
+                kw["rank"] = rng.choice([None, 1, 2])
+            if rep.startswith(("pauli", "chi")):
+                kw["normalize"] = rng.random() < 0.5
+            add("random_quantum_channel", **kw)
+    for rc in (True, False):
+        for dm in (False, True):
+            add("random_clifford", nqubits=rng.choice([1, 2, 3]), return_circuit=rc, density_matrix=dm)
+    subsets = [None, ["I", "X"], ["X", "I"], ["X", "Y", "Z"], ["Z", "Y", "X", "I"], ["Y", "Z"], ["Z", "I", "Y"], ["X", "Z", "X", "I"], ["Y"]]
+    for sub in subsets:
+        for rc in (True, False):
+            kw = dict(qubits=rng.choice([2, 3]), depth=rng.choice([3, 4]), subset=sub, return_circuit=rc)
+            if rc:
+                kw["density_matrix"] = rng.random() < 0.3
+            add("random_pauli", **kw)
+    add("random_pauli", qubits=[2, 0], depth=3, subset=["Z", "X", "Y"], return_circuit=True)
+    add("random_pauli", qubits=[1, 3], depth=2, max_qubits=5, subset=["I", "Y", "X"], return_circuit=True)
+    add("random_pauli", qubits=1, depth=4, max_qubits=3, subset=["Z", "X"], return_circuit=False)
+    for nz in (False, True):
+        add("random_pauli_hamiltonian", nqubits=2, normalize=nz, max_eigenvalue=3 if nz else None, pauli_order=rng.choice(["IXYZ", "ZYXI", "XIZY"]))
+    for bist in (False, True):
+        for dd in (False, True):
+            add("random_stochastic_matrix", dims=3, bistochastic=bist, diagonally_dominant=dd)
+    return S
+
+
+def spec_str(sp):
+    return sp["fn"] + "(" + ", ".join(f"{k}={v!r}" for k, v in sp["kw"].items()) + ")"
+
+
+HASHSEEDS = ("0", "1", "2")
+
+
+def process_determinism(run, rng, only=None):
+    """the same seeded calls in fresh interpreter processes with PYTHONHASHSEED = 0, 1, 2 (ONE process per hash seed, all calls batched)
+    and in this process: outputs compared bit for bit.  Model statement: C18/Props.v seed_int_deterministic (a call with an int seed
+    reads the same stream in ANY world -- the interpreter's string-hash seed is part of the world)."""
+    import json
+    import os
+    import subprocess
+    import sys
+    specs = determinism_specs(run, rng) if only is None else [only]
+    here = [_call_spec(sp) for sp in specs]
+    procs = {}
+    for hs in HASHSEEDS:
+        env = dict(os.environ)
+        env["PYTHONHASHSEED"] = hs
+        procs[hs] = subprocess.Popen([sys.executable, "-c", "from harness import c18; c18._worker_main()"], stdin=subprocess.PIPE, stdout=subprocess.PIPE,
+                                     stderr=subprocess.PIPE, env=env, text=True, cwd=os.path.dirname(os.path.dirname(os.path.abspath(__file__))))
+    outs = {}
+    for hs, pr in procs.items():
+        try:
+            o, e = pr.communicate(json.dumps(specs), timeout=600)
+            got = json.loads(o)
+            assert got["hashseed"] == hs and len(got["out"]) == len(specs)
+            outs[hs] = got["out"]
+        except Exception as ex:  # noqa: BLE001
+            run.find("process_determinism:worker", f"worker process with PYTHONHASHSEED={hs} failed: {type(ex).__name__}: {str(ex)[:200]} "
+                     f"{(e or '')[-300:] if 'e' in dir() else ''}", {}, concrete=False)
+            return
+    strip = lambda d: {k: v for k, v in d.items() if k != "show"}  # noqa: E731
+    bad = {}
+    for i, sp in enumerate(specs):
+        views = {"this process (PYTHONHASHSEED=%s)" % os.environ.get("PYTHONHASHSEED", "random"): here[i], **{f"fresh process PYTHONHASHSEED={hs}": outs[hs][i] for hs in HASHSEEDS}}
+        run.case({"process_determinism": spec_str(sp)}, True)
+        ref_name, ref = next(iter(views.items()))
+        diff = [(nm, v) for nm, v in views.items() if strip(v) != strip(ref)]
+        if diff:
+            opts = ",".join(k for k, v in sp["kw"].items() if k not in ("seed", "dims", "qubits", "depth", "nqubits", "ngates") and v not in (None, False))
+            key = f"seed_reproducible:processes:{sp['fn']}:{opts}"
+            bad[key] = bad.get(key, 0) + 1
+            if bad[key] == 1:
+                nm, v = diff[0]
+                run.find(key, f"{spec_str(sp)} is not reproducible from its seed across interpreter processes: {ref_name} gives "
+                         f"{ref.get('show', ref.get('raises', ''))} but {nm} gives {v.get('show', v.get('raises', ''))} (outputs compared bit for bit; the result "
+                         "depends on the interpreter's string hash seed)", {"stream": "process_determinism", "spec": sp})
+    if only is None:
+        run.oblige(f"test:reproducible from a seed across processes: {len(specs)} seeded generator calls (every generator x option of random_ensembles.py) "
+                   "give bit-identical outputs in this process and in fresh interpreters with PYTHONHASHSEED = 0, 1, 2", not bad, "test")
+        run.notes["process_determinism_calls"] = len(specs)
+
+
+def random_pauli_oracle(run, rng, T):
+    """random_pauli == the documented construction on the seed's own stream: integers(0, len(labels), (len(qubits), depth)) mapped through the
+    labels IN THE ORDER THE USER GAVE THEM (duplicates dropped at their first occurrence) -- independent of any set / dict order"""
+    import qibo.quantum_info as qi
+    mats = {"I": np.eye(2), "X": np.array([[0, 1], [1, 0]]), "Y": np.array([[0, -1j], [1j, 0]]), "Z": np.diag([1, -1])}
+    for sub in (None, ["I", "X"], ["X", "I"], ["Z", "Y", "X", "I"], ["Y", "Z"], ["Z", "I", "Y"], ["X", "Z", "X", "I"], ["Y", "Z", "X"]):
+        for _ in range(2 if run.tier == "quick" else 8):
+            seed, nq, depth = rng.randrange(10 ** 6), rng.choice([2, 3]), rng.choice([2, 3, 5])
+            labels = list(dict.fromkeys(sub)) if sub is not None else ["I", "X", "Y", "Z"]
+            idx = np.random.default_rng(seed).integers(0, len(labels), size=(nq, depth))
+            want = [[labels[k] for k in row] for row in idx]
+            got_m = np.asarray(qi.random_pauli(nq, depth, subset=sub, return_circuit=False, seed=seed))
+            want_m = np.array([[mats[l_] for l_ in row] for row in want])
+            circ = qi.random_pauli(nq, depth, subset=sub, return_circuit=True, seed=seed)
+            got_c = [(type(g).__name__, g.qubits[0]) for g in circ.queue]
+            want_c = [(l_, q) for q, row in enumerate(want) for l_ in row if l_ != "I"]
+            rp = {"subset": sub, "seed": seed, "qubits": nq, "depth": depth}
+            T.check("random_pauli:subset_order:matrices", got_m.shape == want_m.shape and np.array_equal(got_m, want_m),
+                    f"random_pauli({nq}, {depth}, subset={sub}, return_circuit=False, seed={seed}) is not integers(0, len(subset)) of the seed's stream mapped "
+                    f"through the subset in the order given: expected labels {want}", rp)
+            T.check("random_pauli:subset_order:circuit", got_c == want_c,
+                    f"random_pauli({nq}, {depth}, subset={sub}, return_circuit=True, seed={seed}) gives gates {got_c[:8]}, the seed's stream mapped through the "
+                    f"subset in the order given is {want_c[:8]}", rp)
+
+
+# ----------------------------------------------------------------------------- F. input representation invariance of the measures
+def _strided18(v):
+    big = np.zeros(tuple(2 * x for x in v.shape), dtype=v.dtype)
+    view = big[tuple(slice(None, None, 2) for _ in v.shape)]
+    view[...] = v
+    return view
+
+
+def _ro18(v):
+    w = v.copy()
+    w.setflags(write=False)
+    return w
+
+
+MEASURE_REPS = {"fortran": (False, np.asfortranarray), "strided_view": (False, _strided18), "readonly": (False, _ro18),
+                "float64": (True, lambda v: v.real.astype(np.float64)), "float64_fortran": (True, lambda v: np.asfortranarray(v.real.astype(np.float64)))}
+
+
+def measure_representation(run, rng, T):
+    """every measure on the same state handed over as float64 (real-valued states) / Fortran order / strided view / read-only == the answer
+    for the complex128 C-order array (1e-10: LAPACK may take another path for real input)"""
+    import qibo.quantum_info as qi
+    quick = run.tier == "quick"
+    for n in ((2, 3) if quick else (1, 2, 3, 4)):
+        d = 2 ** n
+        for real in (True, False):
+            A = np.array([[complex(rng.randint(-3, 3), 0 if real else rng.randint(-3, 3)) for _ in range(d)] for _ in range(d)])
+            rho = A @ A.conj().T + np.eye(d)
+            rho = rho / np.trace(rho)
+            B_ = np.array([[complex(rng.randint(-3, 3), 0 if real else rng.randint(-3, 3)) for _ in range(d)] for _ in range(d)])
+            sigma = B_ @ B_.conj().T + 2 * np.eye(d)
+            sigma = sigma / np.trace(sigma)
+            psi = np.array([complex(rng.randint(-3, 3), 0 if real else rng.randint(-3, 3)) for _ in range(d)]) + (1 if real else 1j)
+            psi = psi / np.linalg.norm(psi)
+            sub = rng.sample(range(n), max(1, n - 1))
+            part = sorted(rng.sample(range(n), max(1, n // 2)))
+            fns = {"partial_trace(rho)": lambda r, s_, p_: qi.partial_trace(r, sub), "partial_trace(psi)": lambda r, s_, p_: qi.partial_trace(p_, sub),
+                   "partial_transpose": lambda r, s_, p_: qi.partial_transpose(r, part), "purity": lambda r, s_, p_: qi.purity(r),
+                   "trace_distance": lambda r, s_, p_: qi.trace_distance(r, s_), "fidelity(mixed)": lambda r, s_, p_: qi.fidelity(r, s_),
+                   "fidelity(pure)": lambda r, s_, p_: qi.fidelity(p_, p_ if real else np.conj(p_) * 0 + p_), "hilbert_schmidt_distance": lambda r, s_, p_: qi.hilbert_schmidt_distance(r, s_),
+                   "von_neumann_entropy": lambda r, s_, p_: qi.von_neumann_entropy(r), "relative_von_neumann_entropy": lambda r, s_, p_: qi.relative_von_neumann_entropy(r, s_),
+                   "entanglement_entropy": lambda r, s_, p_: qi.entanglement_entropy(p_, part), "renyi_entropy": lambda r, s_, p_: qi.renyi_entropy(r, 2.5),
+                   "tsallis_entropy": lambda r, s_, p_: qi.tsallis_entropy(r, 1.5), "negativity": lambda r, s_, p_: qi.negativity(r, part),
+                   "meyer_wallach_entanglement": lambda r, s_, p_: qi.meyer_wallach_entanglement(p_), "matrix_power": lambda r, s_, p_: qi.matrix_power(r, 0.5),
+                   "schmidt_decomposition": lambda r, s_, p_: qi.schmidt_decomposition(p_, part)[1], "bures_distance": lambda r, s_, p_: qi.bures_distance(r, s_)}
+            if n > 1:
+                fns["mutual_information"] = lambda r, s_, p_: qi.mutual_information(r, part)
+            for name, f in fns.items():
+                try:
+                    want = np.asarray(f(rho.copy(), sigma.copy(), psi.copy()))
+                except Exception:  # noqa: BLE001
+                    continue
+                for rep, (need_real, conv) in MEASURE_REPS.items():
+                    if need_real and not real:
+                        continue
+                    args = (conv(rho), conv(sigma), conv(psi))
+                    snap = [np.array(a_).tobytes() for a_ in args]
+                    rp = {"measure": name, "rep": rep, "n": n, "real": real, "traced": sub, "partition": part}
+                    try:
+                        got = np.asarray(f(*args))
+                        ok = got.shape == want.shape and np.allclose(got, want, atol=1e-10, rtol=1e-10)
+                        detail = f"{name} on {n} qubits changes when the state(s) are handed over as {rep} (same numbers): {np.round(got.ravel()[:4], 8).tolist()} vs {np.round(want.ravel()[:4], 8).tolist()}"
+                    except Exception as e:  # noqa: BLE001
+                        ok, detail = False, f"{name} on {n} qubits raises {type(e).__name__}: {str(e)[:120]} when the state(s) are handed over as {rep}; the complex128 C-order call succeeds"
+                    T.check(f"representation:{name}:{rep}", ok, detail, rp)
+                    T.check(f"representation:{name}:{rep}:input_mutated", [np.array(a_).tobytes() for a_ in args] == snap, f"{name} wrote its {rep} input", rp)
+
+
 RULE = ("bookkeeping: ALL ordered sub-lists of the qubits (n<=4 quick, n<=5 thorough) x {state-vector, density-matrix} route on seeded "
         "asymmetric Gaussian-integer states, each output compared in Coq with the model and with the textbook sum; non-trivial = the "
         "list is unsorted or a proper non-empty subset; classical measures on dyadic distributions / random bit strings; seed histories "
@@ -918,7 +1162,10 @@ RULE = ("bookkeeping: ALL ordered sub-lists of the qubits (n<=4 quick, n<=5 thor
         "definition-level stream (c18_defs): per size 1..4 (5) a corpus of ~15 state classes (pure vectors / pure DMs: basis, product, random, GHZ, W; "
         "mixed: maximally mixed, diagonal full-rank / rank-deficient, products of diagonal blocks, GHZ-diagonal full / deficient, Werner, nearly pure "
         "eps = 2^-10, 2^-20, random full-rank / rank-k, products of mixed blocks) x every public measure x bases x check_hermitian x orders / containers "
-        "of the traced qubits, each compared with an independent oracle, inputs snapshot; call histories of table / cache based functions")
+        "of the traced qubits, each compared with an independent oracle, inputs snapshot; call histories of table / cache based functions; "
+        "process-level determinism (family H): every seeded generator x option of random_ensembles.py (~100 calls) in THREE fresh interpreters with "
+        "PYTHONHASHSEED = 0, 1, 2 and in this process, outputs compared bit for bit; random_pauli == the seed's integer stream mapped through the subset "
+        "in the user's order; representation invariance of ~19 measures (float64 / Fortran / strided / read-only inputs)")
 
 
 def main(run):
@@ -962,6 +1209,9 @@ def main(run):
     spectral(run, rng, T)
     dimension_probes(run, rng, T)
     generators(run, rng, T)
+    random_pauli_oracle(run, random.Random(run.seed + 5), T)
+    process_determinism(run, random.Random(run.seed + 6))
+    measure_representation(run, random.Random(run.seed + 7), T)
     from harness import c18_defs
     c18_defs.run_all(run, random.Random(run.seed + 18))
     seen, uniq = set(), []
@@ -995,6 +1245,14 @@ def replay(run, data):
         meyer_wallach_exact(run, random.Random(data.get("seed", 0) + 4))
     elif key.startswith(("hamming", "total_variation")):
         classical(run, rng)
+    elif key.startswith("seed_reproducible:processes"):
+        process_determinism(run, rng, only=data.get("replay", {}).get("spec"))
+    elif key.startswith("representation:"):
+        warnings.simplefilter("ignore")
+        np.seterr(all="ignore")
+        measure_representation(run, random.Random(data.get("seed", 0) + 7), Tests(run))
+    elif key.startswith("random_pauli:subset_order"):
+        random_pauli_oracle(run, random.Random(data.get("seed", 0) + 5), Tests(run))
     elif key.startswith("seed"):
         seed_machine(run, rng)
     else:
